@@ -569,8 +569,10 @@ fn run(tier: Tier, shard: usize, nshards: usize, _seed: u64) -> Partial {
         if i % nshards != shard {
             continue;
         }
-        let o = scenario(c, i % 9 == 0);
-        record(c, &o, &mut out);
+        super::guard_dead_actor(&mut out, &format!("s{}/{}", c.s, if c.public { "public" } else { "private" }), cfg_json(c), |out| {
+            let o = scenario(c, i % 9 == 0);
+            record(c, &o, out);
+        });
     }
     // slow links (round trip above the initial request timeout)
     let mut unit = 0;
@@ -579,7 +581,7 @@ fn run(tier: Tier, shard: usize, nshards: usize, _seed: u64) -> Partial {
             for one_way in [300u64, 350, 600] {
                 unit += 1;
                 if unit % nshards == shard {
-                    slow_links(s, public, one_way, &mut out);
+                    super::guard_dead_actor(&mut out, "slow-links", json!({"part": "slow-links", "s": s, "public": public, "one_way_ms": one_way}), |out| slow_links(s, public, one_way, out));
                 }
             }
         }
@@ -589,7 +591,7 @@ fn run(tier: Tier, shard: usize, nshards: usize, _seed: u64) -> Partial {
     for &n in sizes {
         unit += 1;
         if unit % nshards == shard {
-            testnet(n, &mut out);
+            super::guard_dead_actor(&mut out, "testnet", json!({"part": "testnet", "count": n}), |out| testnet(n, out));
         }
     }
     out.witness("networks joined cleanly", out.count("clean_runs") > 0);
